@@ -29,7 +29,7 @@ PLAN = {
     "thorough": {"shards": 8, "shard_timeout": 3600, "case_timeout": 90, "seq": 600000, "runs": 60000, "par": 6000, "max_case_timeouts": 10},
 }
 THRESHOLDS = {
-    "quick": {"individuals_checked": 5000, "sequential_calls": 600, "multi_objective_calls": 200, "representations": 300, "shared_problem_cases": 100, "runs": 70, "parallel_calls": 40, "parallel_individuals": 150, "set:completion_orders": 5, "parallel_with_evaluated_members": 10, "parallel_batches_with_duplicates": 8},
+    "quick": {"individuals_checked": 5000, "sequential_calls": 600, "multi_objective_calls": 200, "representations": 300, "shared_problem_cases": 100, "runs": 70, "parallel_calls": 40, "parallel_individuals": 150, "set:completion_orders": 5, "parallel_with_evaluated_members": 10, "parallel_batches_with_duplicates": 8, "runs_with_selection_after_variation": 30},
     "thorough": {"individuals_checked": 120000, "parallel_calls": 600, "set:completion_orders": 40},
 }
 
@@ -85,7 +85,7 @@ def gen_cases(tier, seed):
     for i in range(plan["seq"]):
         yield {"kind": "seq", "n": rng.choice([1, 1, 2, 3, 5, 8]), "pre": rng.random(), "dups": rng.random() < 0.3, "multi": rng.random() < 0.4, "minimize": rng.random() < 0.5, "mins": [rng.random() < 0.5 for _ in range(3)], "bool_min": rng.random() < 0.3, "second": rng.random() < 0.3, "repr": rng.choice(["tree", "ge", "sge"]), "seed": rng.randrange(10**6)}
     for i in range(plan["runs"]):
-        yield {"kind": "run", "alg": rng.choice(["gp", "gp", "hc"]), "pop": rng.choice([2, 3, 5, 8]), "budget": rng.randint(5, 40), "multi": rng.random() < 0.3, "minimize": rng.random() < 0.5, "repr": rng.choice(["tree", "ge"]), "seed": rng.randrange(10**6)}
+        yield {"kind": "run", "alg": rng.choice(["gp", "gp", "hc"]), "step": rng.choice(["default", "default", "mut-then-tournament", "mut-then-elitism", "mut-then-evaluate"]), "pop": rng.choice([2, 3, 5, 8]), "budget": rng.randint(5, 40), "multi": rng.random() < 0.3, "minimize": rng.random() < 0.5, "repr": rng.choice(["tree", "ge"]), "seed": rng.randrange(10**6)}
     for i in range(plan["par"]):
         yield {"kind": "par", "n": rng.choice([1, 2, 3, 4, 6, 8]), "pre": rng.choice([0.0, 0.0, 0.3, 0.6]), "dups": rng.random() < 0.4, "multi": rng.random() < 0.3, "minimize": rng.random() < 0.5, "repr": rng.choice(["tree", "ge"]), "seed": rng.randrange(10**6)}
 
@@ -237,7 +237,26 @@ def run_run(case, rec):
     R = evo.make_recorder_class()
     r = R()
     tr = (MultiObjectiveProgressTracker if c["multi"] else SingleObjectiveProgressTracker)(prob, ev, recorders=[r])
-    alg = GeneticProgramming(prob, EvaluationBudget(case["budget"]), rep, src, tracker=tr, population_size=case["pop"]) if case["alg"] == "gp" else HC(prob, EvaluationBudget(case["budget"]), rep, src, tracker=tr, number_of_mutations=case["pop"])
+    from geneticengine.algorithms.gp.operators.combinators import ParallelStep, SequenceStep
+    from geneticengine.algorithms.gp.operators.elitism import ElitismStep
+    from geneticengine.algorithms.gp.operators.evaluation import EvaluateStep
+    from geneticengine.algorithms.gp.operators.mutation import GenericMutationStep
+    from geneticengine.algorithms.gp.operators.selection import TournamentSelection
+    from geneticengine.evaluation.budget import AnyOf
+
+    step = {
+        "default": None,
+        # selection / elitism / evaluation AFTER variation: the steps meet individuals without a fitness
+        "mut-then-tournament": ParallelStep([ElitismStep(), SequenceStep(GenericMutationStep(1.0), TournamentSelection(2, with_replacement=True))], weights=[1, 3]),
+        "mut-then-elitism": SequenceStep(GenericMutationStep(1.0), ElitismStep()),
+        "mut-then-evaluate": SequenceStep(TournamentSelection(2), GenericMutationStep(1.0), EvaluateStep()),
+    }[case.get("step", "default")]
+    if step is not None:
+        rec.count("runs_with_selection_after_variation")
+    from gev import evo as _evo
+
+    budget = AnyOf(EvaluationBudget(case["budget"]), _evo.check_count_budget(case["budget"] + 60))  # a dishonest counter must not hang the case
+    alg = GeneticProgramming(prob, budget, rep, src, tracker=tr, population_size=case["pop"], step=step) if case["alg"] == "gp" else HC(prob, EvaluationBudget(case["budget"]), rep, src, tracker=tr, number_of_mutations=case["pop"])
     wit = {k: case[k] for k in ("alg", "pop", "budget", "multi", "minimize", "repr")}
     try:
         alg.search()
